@@ -175,6 +175,9 @@ func (e *Engine) f2i(x *Term, w int) *Term {
 	if x.Op == OSBVToFP && x.Sort.K == SF64 && signedBits(x.Args[0]) <= 53 {
 		return tt.Extract(tt.SExt(x.Args[0], 64), w-1, 0)
 	}
+	if x.Op == OFNeg && x.Args[0].Op == OSBVToFP && x.Sort.K == SF64 && signedBits(x.Args[0].Args[0]) <= 53 {
+		return tt.Extract(tt.Neg(tt.SExt(x.Args[0].Args[0], 64)), w-1, 0)
+	}
 	x64 := tt.FToFP(x, F64Sort)
 	lo := tt.F64Const(-9.223372036854775808e18)
 	hi := tt.F64Const(9.223372036854775808e18)
@@ -215,6 +218,15 @@ func signedBits(t *Term) int {
 		r = a + 1
 	case OMul:
 		r = signedBits(t.Args[0]) + signedBits(t.Args[1])
+	case OBAnd:
+		// masking with a non-negative constant bounds the result
+		for _, a := range t.Args {
+			if a.IsConst() && a.Int() >= 0 {
+				if b := signedBits(a); b < r {
+					r = b
+				}
+			}
+		}
 	case OIte:
 		a, b := signedBits(t.Args[1]), signedBits(t.Args[2])
 		if b > a {
